@@ -4,8 +4,10 @@
    section, a holder's done(), the next step of the k-th watcher goroutine, the next step of the k-th do goroutine /
    instance function).  `faithful` = the code as it is; `reachable s` = s is the result of `run faithful init sched`
    for SOME schedule, so every theorem below quantifies over every number of holders and every interleaving.
-   Contract assumed of the user: each done function is called at most once; the instance function returns only after
-   it has seen its stop channel closed (it is an environment script that does exactly that, after arbitrary delays). *)
+   Contract assumed of the user: each done function is called at most once.  The instance function is an environment
+   script: it normally returns only after it has seen its stop channel closed (after arbitrary delays), but it may also
+   return on its own while stop is open (label LIE, ghost flag `early`); every clause below covers both, and only the
+   "is running" part of clause 2 is conditional on early = false. *)
 From Coq Require Import List Arith Bool.
 From BB.Model Require Import Worker.
 From BB.Proofs Require Worker.
@@ -23,15 +25,18 @@ Proof. intros s HR. split; [exact (Proofs.Worker.single_instance s HR) | exact (
 Print Assumptions C17_single_instance.
 
 (* Clause 2.  From the moment Do returns until the done function is called (holder h exists, hdone = false): x.stop/x.done
-   point to an instance k whose stop channel is open and whose done channel is open, whose goroutine has been spawned
-   and whose function has either not begun executing yet (IReady: `go x.do(fn)` issued, not yet scheduled) or is running
-   and has been handed exactly that open stop channel (IRun, isc = Some k); its watcher is still in the waiting loop. *)
+   point to an instance k whose stop channel is OPEN and whose watcher is still in its waiting loop; the function, once
+   started, has been handed exactly that stop channel.  Under the user's side of the contract (the function has not
+   returned on its own: early = false) the done channel is open too and the function is either not yet scheduled
+   (IReady: `go x.do(fn)` issued) or running (IRun).  A function that returns by itself while held (label LIE) is no
+   longer "running" by its own doing; the stop channel nevertheless stays open until the last done (helpers may watch it). *)
 Theorem C17_held_means_running : forall s, reachable s ->
   forall h hh, nth_error (holders s) h = Some hh -> hdone hh = false ->
   exists k ik, xinst s = Some k /\ nth_error (insts s) k = Some ik /\
-               stopc ik = false /\ donec ik = false /\
-               (ip ik = IReady \/ (ip ik = IRun /\ isc ik = Some k)) /\
-               (wp ik = WLoop \/ exists g, wp ik = WWait g).
+               stopc ik = false /\
+               (wp ik = WLoop \/ exists g, wp ik = WWait g) /\
+               (ip ik <> IReady -> isc ik = Some k) /\
+               (early ik = false -> donec ik = false /\ (ip ik = IReady \/ ip ik = IRun)).
 Proof. exact Proofs.Worker.held_means_running. Qed.
 Print Assumptions C17_held_means_running.
 
@@ -53,12 +58,14 @@ Proof. exact Proofs.Worker.do_blocked_while_stopping. Qed.
 Print Assumptions C17_do_during_stop_waits.
 
 (* Clause 4b.  Whenever Do does get through it returns a new outstanding holder, and the instance it then holds has an
-   open stop channel and has not returned; if no instance existed (in particular after a stop phase) it is a FRESH
-   instance (new goroutines, new channels) and every earlier instance has exited with its stop channel closed. *)
+   open stop channel (and, unless its function already returned on its own, has not returned); if no instance existed
+   (in particular after a stop phase) it is a FRESH instance (new goroutines, new channels) and every earlier instance
+   has exited with its stop channel closed. *)
 Theorem C17_do_then_restarts : forall s s', reachable s -> step faithful s LDo = Some s' ->
   exists k ik g,
     xinst s' = Some k /\ nth_error (insts s') k = Some ik /\
-    stopc ik = false /\ donec ik = false /\ (ip ik = IReady \/ (ip ik = IRun /\ isc ik = Some k)) /\
+    stopc ik = false /\
+    (early ik = false -> donec ik = false /\ (ip ik = IReady \/ ip ik = IRun)) /\
     holders s' = holders s ++ [{| hgen := g; hdone := false |}] /\
     match xinst s with
     | Some k0 => k = k0 /\ insts s' = insts s
@@ -72,8 +79,8 @@ Print Assumptions C17_do_then_restarts.
 (* Clause 5 (liveness, DESIGN 3.3).  (i) every step other than a new Do strictly decreases `measure` (for every variant and
    from every state), so between two Do calls only finitely many steps happen; (ii) in every reachable state in which
    nothing but a new Do can move: every done function has been called, no instance exists (stop/done nil), every
-   instance ever started has exited with its stop channel closed, every watcher has exited, mu is free, x.wg is nil,
-   and a Do would get through.  So every started instance is stopped once nobody holds it, and nothing deadlocks. *)
+   instance ever started has exited with its stop channel CLOSED (also when its function had returned on its own long
+   before), every watcher has exited, mu is free, x.wg is nil, and a Do would get through.  So every started instance is stopped once nobody holds it, and nothing deadlocks. *)
 Theorem C17_measure_decreases : forall fl s l s', step fl s l = Some s' -> l <> LDo -> measure s' < measure s.
 Proof. exact Proofs.Worker.measure_decreases. Qed.
 Print Assumptions C17_measure_decreases.
@@ -107,8 +114,8 @@ Print Assumptions C17_oracle_states_reachable.
 (* Sensitivity: the same step function with ONE realistic defect switched on violates the clauses. *)
 (* the watcher releases mu before waiting for the instance to exit: two instance functions run at once *)
 Theorem C17_early_unlock_two_instances_refuted :
-  exists sched, countb running (insts (run Proofs.Worker.early init sched)) = 2 /\
-                Proofs.Worker.single_okb (run Proofs.Worker.early init sched) = false.
+  exists sched, countb running (insts (run Proofs.Worker.early_unlock init sched)) = 2 /\
+                Proofs.Worker.single_okb (run Proofs.Worker.early_unlock init sched) = false.
 Proof. exact Proofs.Worker.early_unlock_two_instances_refuted. Qed.
 Print Assumptions C17_early_unlock_two_instances_refuted.
 
